@@ -39,16 +39,24 @@
 EXTENDS Integers, FiniteSets, Sequences, TLC
 
 CONSTANTS
-    Atomic      \* TRUE : a change is applied atomically -- a change one of whose actions is
+    Atomic,     \* TRUE : a change is applied atomically -- a change one of whose actions is
                 \*        refused leaves the object untouched (the intended behaviour, and the
                 \*        behaviour of Issue::op / Patch::op after the fix);
                 \* FALSE: the actions are applied in place, those preceding the refused one stay
                 \*        (Issue::op / Patch::op / Identity::op as found).
+    DropDetached
+                \* TRUE : changes that do not descend from the root (a change commit without parent
+                \*        changes that is not the root, and everything built on one) are dropped
+                \*        before evaluation (ChangeGraph::evaluate after the fix);
+                \* FALSE: they are left in the graph: never visited, never verified, still part of
+                \*        the returned history, and their dependents are evaluated (as found).
 
 Root == 0
 None == -1      \* "no reference"
 \* "nothing evaluated (since the references last moved)"
 NoView == [log |-> <<>>, lww |-> None, hist |-> {}, tips |-> {}]
+\* the answer when the root of the object is not among the loaded changes
+MissingRootView == [log |-> <<>>, lww |-> -2, hist |-> {}, tips |-> {}]
 
 -----------------------------------------------------------------------------
 (* Change graphs.                                                           *)
@@ -84,6 +92,12 @@ UpClosed(G, S) == \A c \in S : Dependents(G, c) \subseteq S
 
 \* ChangeGraph::load, declaratively: everything reachable from the tip references.
 Closure(G, T) == T \cup UNION {Anc(G, c) : c \in T}
+
+\* Dag::roots: changes without dependencies.  Every one of them other than the root of the
+\* object is "detached": nothing connects it, or what is built on it, to the object.
+DetachedRoots(G) == {c \in NonRootOf(G) : Deps(G, c) = {}}
+UpClosure(G, S) == S \cup UNION {Desc(G, c) : c \in S}
+Attached(G) == Restrict(G, G.nodes \ UpClosure(G, DetachedRoots(G)))
 
 -----------------------------------------------------------------------------
 (* Evaluation order: Dag::prune_by(children, .., chronological).            *)
@@ -162,8 +176,9 @@ Apply(G, obj, c, sib) ==
          [] cl = "rejectLater" -> No(IF Atomic THEN obj ELSE full)
          [] cl = "soft"        -> IF sib = {} THEN No(obj) ELSE Ok(logonly)
 
-\* Classes refused in every state.
+\* Classes refused in every state, and the changes that are invalid whatever the state.
 AlwaysInvalid == {"badSig", "rejectFirst", "rejectLater"}
+InvalidIn(G) == {c \in NonRootOf(G) : G.cls[c] \in AlwaysInvalid} \cup DetachedRoots(G)
 
 (* The loop of Dag::prune_by: the order is computed once, up front; a node  *)
 (* removed meanwhile is skipped; the siblings handed to `apply` are those   *)
@@ -179,7 +194,12 @@ Run(G, q, obj, rej) ==
               IF r.ok THEN Run(G, Tail(q), r.obj, rej)
               ELSE Run(Remove(G, c), Tail(q), r.obj, rej \cup {c})
 
-Eval(G) == Run(G, EvalOrder(G), InitObj, {})
+\* The graph that is traversed: ChangeGraph::evaluate first drops what is detached (after the fix).
+EvalGraph(G) == IF DropDetached THEN Attached(G) ELSE G
+
+Eval(G) ==
+    LET H == EvalGraph(G)
+    IN Run(H, EvalOrder(H), InitObj, IF DropDetached THEN DetachedRoots(G) ELSE {})
 
 \* What `cob::get` returns, projected: the object, the history and its tips.
 ViewOf(e) == [log |-> e.obj.log, lww |-> e.obj.lww, hist |-> e.graph.nodes, tips |-> Tips(e.graph)]
@@ -252,21 +272,29 @@ LoadPop ==
                /\ stack' = rest \o SortById(Deps(store, c))
     /\ UNCHANGED <<store, refs, pc, graph, queue, obj, result>>
 
-\* ... the edges are added once every node is there; an object without its root is not evaluated
-\* (`MissingRoot`); here every change descends from the root, so the root is always loaded.
+\* ... the edges are added once every node is there.  An object whose root was not reached is not
+\* evaluated (no object / `MissingRoot`).
 LoadDone ==
-    /\ pc = "load" /\ stack = <<>>
+    /\ pc = "load" /\ stack = <<>> /\ Root \in seen
     /\ graph' = Restrict(store, seen)
     /\ pc' = "init"
     /\ UNCHANGED <<store, refs, stack, seen, edges, queue, obj, result>>
 
-\* ChangeGraph::evaluate: the root is evaluated separately, then the order is computed.
+LoadFail ==
+    /\ pc = "load" /\ stack = <<>> /\ Root \notin seen
+    /\ result' = MissingRootView
+    /\ pc' = "idle"
+    /\ UNCHANGED <<store, refs, stack, seen, edges, graph, queue, obj>>
+
+\* ChangeGraph::evaluate: the root is evaluated separately, what is detached is dropped (after the
+\* fix), then the order is computed.
 InitRoot ==
     /\ pc = "init"
     /\ obj' = InitObj
-    /\ queue' = EvalOrder(graph)
+    /\ graph' = EvalGraph(graph)
+    /\ queue' = EvalOrder(EvalGraph(graph))
     /\ pc' = "walk"
-    /\ UNCHANGED <<store, refs, stack, seen, edges, graph, result>>
+    /\ UNCHANGED <<store, refs, stack, seen, edges, result>>
 
 \* One iteration of the loop in prune_by.
 Step ==
@@ -287,7 +315,7 @@ Finish ==
 
 Next ==
     \/ \E n \in Namespace : (\E c \in store.nodes : SetRef(n, c)) \/ DelRef(n)
-    \/ BeginGet \/ LoadPop \/ LoadDone \/ InitRoot \/ Step \/ Finish
+    \/ BeginGet \/ LoadPop \/ LoadDone \/ LoadFail \/ InitRoot \/ Step \/ Finish
 
 -----------------------------------------------------------------------------
 (* Properties of the step machine.                                          *)
@@ -301,7 +329,9 @@ LoadIsClosure ==
 \* C05 for the steps of `get`: the view a replica computes is the function View of the closure
 \* of its references -- independent of which namespaces hold them and of the enumeration order.
 C05_GetIsFunctionOfClosure ==
-    (pc = "idle" /\ result # NoView) => result = View(Restrict(store, Closure(store, RefTargets)))
+    (pc = "idle" /\ result # NoView) =>
+        LET S == Closure(store, RefTargets)
+        IN result = IF Root \in S THEN View(Restrict(store, S)) ELSE MissingRootView
 
 \* While evaluating: the object only ever contains effects of changes still in the graph.
 WalkNoTrace ==
@@ -318,15 +348,17 @@ Filter(s, S) == SelectSeq(s, LAMBDA x : x \in S)
 
 \* The evaluation order lists every non-root change once, after all its dependencies.
 OrderIsLinearExtension(G) ==
-    LET o == EvalOrder(G) IN
-    /\ IsPermutationOf(o, NonRootOf(G))
-    /\ \A c \in NonRootOf(G) : \A d \in Deps(G, c) \ {Root} : Pos(o, d) < Pos(o, c)
+    LET H == EvalGraph(G)
+        o == EvalOrder(H)
+    IN /\ IsPermutationOf(o, NonRootOf(H))
+       /\ \A c \in NonRootOf(H) : \A d \in Deps(H, c) \ {Root} : d \in Range(o) /\ Pos(o, d) < Pos(o, c)
 
 \* Removing any set of changes closed under dependents does not reorder the others.  (This is
 \* what makes pruning sound: the order is computed before anything is pruned.)
 OrderStableUnderRemoval(G) ==
-    \A S \in SUBSET NonRootOf(G) :
-        UpClosed(G, S) => EvalOrder(Restrict(G, G.nodes \ S)) = Filter(EvalOrder(G), G.nodes \ S)
+    LET H == EvalGraph(G) IN
+    \A S \in SUBSET NonRootOf(H) :
+        UpClosed(H, S) => EvalOrder(Restrict(H, H.nodes \ S)) = Filter(EvalOrder(H), H.nodes \ S)
 
 \* C06, first half: what is dropped is exactly the refused changes and their dependents, and a
 \* change that is invalid in every state is always among them.  (e = Eval(G), passed in so that
@@ -334,7 +366,7 @@ OrderStableUnderRemoval(G) ==
 C06_PrunedIsRejectedUpClosure(G, e) ==
     LET pruned == G.nodes \ e.graph.nodes IN
     /\ pruned = e.rejected \cup UNION {Desc(G, c) : c \in e.rejected}
-    /\ \A c \in NonRootOf(G) : G.cls[c] \in AlwaysInvalid => c \in pruned
+    /\ InvalidIn(G) \subseteq pruned
     /\ DownClosed(G, e.graph.nodes)
 
 \* C06, second half: the result is identical to evaluating the history from which the dropped
@@ -347,7 +379,7 @@ C06_NoEffect(G, e) ==
     LET v == ViewOf(e) IN
     /\ IsPermutationOf(v.log, v.hist \ {Root})
     /\ v.lww \in v.hist
-    /\ v.log = Filter(EvalOrder(G), v.hist)
+    /\ v.log = Filter(EvalOrder(EvalGraph(G)), v.hist)
 
 \* C05 for the function: loading through any reference assignment with the same reachable
 \* closure gives the same view.
@@ -364,16 +396,15 @@ DownSets(G) == {S \in SUBSET G.nodes : Root \in S /\ DownClosed(G, S)}
 (* the last surviving writer.  The transcribed algorithm must stay within it (AlgWithinStatement)*)
 (* and so must every answer recorded from the implementation (TraceCob.tla).                    *)
 StateDependent == {"needs", "soft"}
-UpClosure(G, S) == S \cup UNION {Desc(G, c) : c \in S}
 LastOk(G, log) ==
     LET idx == {i \in DOMAIN log : G.cls[log[i]] = "ok"}
     IN IF idx = {} THEN Root ELSE log[CHOOSE i \in idx : \A j \in idx : j <= i]
 
 Allowed(G, v) ==
     /\ Root \in v.hist /\ v.hist \subseteq G.nodes /\ DownClosed(G, v.hist)
-    /\ \A c \in v.hist \ {Root} : G.cls[c] \notin AlwaysInvalid
+    /\ v.hist \cap InvalidIn(G) = {}
     /\ (\A c \in NonRootOf(G) : G.cls[c] \notin StateDependent)
-          => v.hist = G.nodes \ UpClosure(G, {c \in NonRootOf(G) : G.cls[c] \in AlwaysInvalid})
+          => v.hist = G.nodes \ UpClosure(G, InvalidIn(G))
     /\ v.tips = Tips(Restrict(G, v.hist))
     /\ IsPermutationOf(v.log, v.hist \ {Root})
     /\ \A c \in v.hist \ {Root} :
